@@ -6,9 +6,9 @@ namespace Pack
     RFC 5549 case -/
 def MsgOK : Msg → Prop
   | .wd4 _ => True
-  | .ann4 _ _ => True
+  | .ann4 _ nh _ => nhIs4 nh = true
   | .unreach f _ => f ≠ 0
-  | .reach f _ nh _ => f ≠ 0 ∨ nh ≠ none
+  | .reach f _ nh _ => f ≠ 0 ∨ nhIs4 nh = false
   | .eor _ => True
 
 theorem hdr_mono {a b : Nat} (h : a ≤ b) : hdr a ≤ hdr b := by
@@ -59,11 +59,12 @@ theorem alone_le (o : Opts) (m : Msg) (hm : MsgOK m) (c : Change) (hc : c ∈ fl
     obtain ⟨n, hn, e⟩ := hc; subst e
     have := entry_le_sum o 0 ns n hn
     simp [aloneMsg, size, sumLen_single]; omega
-  | ann4 a ns =>
+  | ann4 a nh ns =>
     simp only [flat, List.mem_map] at hc
     obtain ⟨n, hn, e⟩ := hc; subst e
     have := entry_le_sum o 0 ns n hn
-    simp [aloneMsg, size, sumLen_single]; omega
+    have h4 : nhIs4 nh = true := hm
+    simp [aloneMsg, h4, size, sumLen_single]; omega
   | unreach f ns =>
     simp only [flat, List.mem_map] at hc
     obtain ⟨n, hn, e⟩ := hc; subst e
@@ -76,15 +77,11 @@ theorem alone_le (o : Opts) (m : Msg) (hm : MsgOK m) (c : Change) (hc : c ∈ fl
     obtain ⟨n, hn, e⟩ := hc; subst e
     have h1 := entry_le_sum o f ns n hn
     have h2 : hdr (5 + nhLen nh + entryLen o f n) ≤ hdr (5 + nhLen nh + sumLen o f ns) := hdr_mono (by omega)
-    cases nh with
-    | none =>
-      have hf : f ≠ 0 := by
-        rcases hm with h | h
-        · exact h
-        · exact absurd rfl h
-      simp [aloneMsg, hf, size, sumLen_single]; omega
-    | some h =>
-      simp [aloneMsg, size, sumLen_single]; omega
+    have hne : ¬ (f = 0 ∧ nhIs4 nh = true) := by
+      rcases hm with h | h
+      · exact fun x => h x.1
+      · exact fun x => by rw [h] at x; exact absurd x.2 (by simp)
+    simp [aloneMsg, hne, size, sumLen_single]; omega
   | eor f => simp [flat] at hc
 
 /-- a well-shaped message that carries one route is that route's single-route encoding -/
@@ -97,12 +94,15 @@ theorem single_alone (m : Msg) (hm : MsgOK m) (c : Change) (hc : flat m = [c]) :
       cases r with
       | nil => simp only [flat, List.map_cons, List.map_nil, List.cons.injEq, and_true] at hc; subst hc; rfl
       | cons _ _ => simp [flat] at hc
-  | ann4 a ns =>
+  | ann4 a nh ns =>
+    have h4 : nhIs4 nh = true := hm
     cases ns with
     | nil => simp [flat] at hc
     | cons n r =>
       cases r with
-      | nil => simp only [flat, List.map_cons, List.map_nil, List.cons.injEq, and_true] at hc; subst hc; rfl
+      | nil =>
+        simp only [flat, List.map_cons, List.map_nil, List.cons.injEq, and_true] at hc; subst hc
+        simp [aloneMsg, h4]
       | cons _ _ => simp [flat] at hc
   | unreach f ns =>
     have hf : f ≠ 0 := hm
@@ -115,25 +115,22 @@ theorem single_alone (m : Msg) (hm : MsgOK m) (c : Change) (hc : flat m = [c]) :
         simp [aloneMsg, hf]
       | cons _ _ => simp [flat] at hc
   | reach f a nh ns =>
+    have hne : ¬ (f = 0 ∧ nhIs4 nh = true) := by
+      rcases hm with h | h
+      · exact fun x => h x.1
+      · exact fun x => by rw [h] at x; exact absurd x.2 (by simp)
     cases ns with
     | nil => simp [flat] at hc
     | cons n r =>
       cases r with
       | nil =>
         simp only [flat, List.map_cons, List.map_nil, List.cons.injEq, and_true] at hc; subst hc
-        cases nh with
-        | none =>
-          have hf : f ≠ 0 := by
-            rcases hm with h | h
-            · exact h
-            · exact absurd rfl h
-          simp [aloneMsg, hf]
-        | some h => rfl
+        simp [aloneMsg, hne]
       | cons _ _ => simp [flat] at hc
   | eor f => simp [flat] at hc
 
 theorem flat_len_wd4 (ns : List Nlri) : (flat (Msg.wd4 ns)).length = ns.length := by simp [flat]
-theorem flat_len_ann4 (a : Attrs) (ns : List Nlri) : (flat (Msg.ann4 a ns)).length = ns.length := by simp [flat]
+theorem flat_len_ann4 (a : Attrs) (nh : Option NH) (ns : List Nlri) : (flat (Msg.ann4 a nh ns)).length = ns.length := by simp [flat]
 theorem flat_len_unreach (f : Nat) (ns : List Nlri) : (flat (Msg.unreach f ns)).length = ns.length := by simp [flat]
 theorem flat_len_reach (f : Nat) (a : Attrs) (nh : Option NH) (ns : List Nlri) :
     (flat (Msg.reach f a nh ns)).length = ns.length := by simp [flat]
@@ -190,14 +187,23 @@ theorem packV4_good (o : Opts) (ps : List Path) (e : Bool) (hb : ∀ p ∈ ps, p
     obtain ⟨c, hc, e⟩ := List.mem_map.mp hm
     subst e
     obtain ⟨_, hk⟩ := groupBy_key _ _ _ g hg
-    obtain ⟨h1, h2, h3⟩ := chunkN_mem _ (one_le_maxN o g.1.2.len) _ _ c hc
-    refine ⟨trivial, ?_⟩
+    obtain ⟨h1, h2, h3⟩ := chunkN_mem _ (one_le_maxN o _) _ _ c hc
+    have hg2 : g.2 ≠ [] := (groupBy_key _ _ _ g hg).1
+    have h4 : nhIs4 g.1.2.2.1 = true := by
+      cases hx : g.2 with
+      | nil => exact absurd hx hg2
+      | cons a0 _ =>
+        obtain ⟨hkey, hmem⟩ := hk a0 (by rw [hx]; exact List.mem_cons_self)
+        have hnh : a0.r.nh = g.1.2.2.1 := congrArg (fun k => k.2.2.1) hkey
+        rw [← hnh]
+        exact (List.mem_filter.mp hmem).2
+    refine ⟨h4, ?_⟩
     have hbits : ∀ n ∈ c, entryLen o 0 n ≤ 5 + ap o 0 := by
       intro n hn
       obtain ⟨a, ha, e⟩ := List.mem_map.mp (h3 n hn)
       subst e
       exact entry_v4_le o _ (hann a (List.mem_filter.mp (hk a ha).2).1)
-    rcases maxN_bound o g.1.2.len c h1 hbits with h | h
+    rcases maxN_bound o (g.1.2.1.len + synthNH g.1.2.2.1) c h1 hbits with h | h
     · left; simp only [size]; omega
     · right; rw [flat_len_ann4]
       cases c with
@@ -208,9 +214,7 @@ theorem packV4_good (o : Opts) (ps : List Path) (e : Bool) (hb : ∀ p ∈ ps, p
     subst e
     refine ⟨Or.inr ?_, Or.inr (by simp [flat])⟩
     have := (List.mem_filter.mp ha).2
-    intro hn
-    rw [hn] at this
-    simp at this
+    simpa using this
   · unfold eorMsg at hm
     split at hm
     · simp only [List.mem_singleton] at hm; subst hm
